@@ -152,15 +152,28 @@ func (al *agentListener) serv(c *conn2) {
 	}()
 
 	go func() {
+		// once sending has failed the agent is gone: close the transport so that the
+		// receive loop ends the session, and keep taking (and dropping) messages until
+		// then, otherwise everything that writes to out would block forever
+		failed := false
+
 		for {
 			select {
 			case p := <-out:
+				if failed {
+					continue
+				}
+
 				if bm, ok := p.(encoding.BinaryMarshaler); !ok {
 					log.Errorf("Error marshalling object")
-					return
+					failed = true
 				} else if err := c.send(bm); err != nil {
 					log.Errorf("Error sending object: %s", err.Error())
-					return
+					failed = true
+				}
+
+				if failed {
+					c.Close()
 				}
 			case <-ctx.Done():
 				return
